@@ -111,6 +111,10 @@ class Interp(object):
             nm = f.id if isinstance(f, ast.Name) else (f.attr if isinstance(f, ast.Attribute) else None)
             if nm in ("deepcopy",):
                 return None
+            if nm == "copy" and e.args:
+                a = self.kind(e.args[0], env)
+                if a is not None and a.lvl in ("NODE", "BODY"):
+                    return K(a.lvl, False)  # a shallow copy: the children are still the caller's nodes
             if nm in ("OrderedDict", "dict") and e.args:
                 a = self.kind(e.args[0], env)
                 if a is not None and a.lvl in ("L1", "ITEMS"):
@@ -154,6 +158,8 @@ class Interp(object):
                     fe = e.args[0]
                     if isinstance(fe, ast.Attribute) and fe.attr in ("fix_missing_locations",):
                         return a
+                    if isinstance(fe, ast.Name) and fe.id == "copy":
+                        return K("BODY", False)  # element-wise shallow copies
                     if isinstance(fe, ast.Attribute) and fe.attr == "visit":
                         return a  # transformer returns the (mutated) nodes
                 return None
@@ -669,7 +675,7 @@ def rule_modf(prog, rep, tier, workers=("conformance._conform_filename", "sync_p
         guarded_by[st] = flags
     for w in workers:
         fi = prog.fn_role(w, "conform_file") if w == "conformance._conform_filename" else prog.fn(w)
-        reads = [c for c in ast.walk(fi.node) if isinstance(c, ast.Call) and prog.is_fn(c.func, "source_transformer.ast_parse", c)]
+        reads = [c for f_ in prog.region(fi) for c in ast.walk(f_.node) if isinstance(c, ast.Call) and prog.is_fn(c.func, "source_transformer.ast_parse", c)]
         if not reads:
             raise AnalysisError("MOD-F: %s no longer reads its module through ast_parse" % w)
         # which read produces the tree that is written back?  the one assigned to the name passed to emit.file
@@ -682,7 +688,7 @@ def rule_modf(prog, rep, tier, workers=("conformance._conform_filename", "sync_p
             while not isinstance(st, ast.stmt):
                 st = st._parent
             tgt = {t.id for t in getattr(st, "targets", []) if isinstance(t, ast.Name)}
-            if written and not (tgt & written):
+            if enclosing_fn(rc) is fi and written and not (tgt & written):
                 continue  # a tree that is only read (truth / input)
             for wst, flags in guarded_by.items():
                 n += 1
